@@ -1,7 +1,7 @@
 (* C15 — property theorems (statements only; proofs live in Proofs.v). *)
 From Coq Require Import ZArith NArith QArith Qabs Bool List.
 Require Import QV.C15.Model QV.C15.Spec QV.C15.ModelQ QV.C15.Proofs QV.C15.Proofs_upd QV.C15.Proofs_prep QV.C15.Proofs_q
-  QV.C15.Proofs_parse QV.C15.Proofs_e2e QV.C15.ModelMC QV.C15.Proofs_mc QV.C15.ModelF QV.C15.Proofs_f QV.C15.Proofs_split QV.C15.Proofs_fr.
+  QV.C15.Proofs_parse QV.C15.Proofs_e2e QV.C15.ModelMC QV.C15.Proofs_mc QV.C15.ModelF QV.C15.Proofs_f QV.C15.Proofs_split QV.C15.Proofs_fr QV.C15.Proofs_r5.
 Import ListNotations.
 Open Scope Z_scope.
 
@@ -533,3 +533,81 @@ Theorem C15_float_quotient_count : forall (X Y : Q) (K : Z) (nx ny : name) env,
             count_update q = K /\ count_fresh_tol true q = Some K /\ update_warns true q = false.
 Proof. exact float_quotient_count. Qed.
 Print Assumptions C15_float_quotient_count.
+
+(* ---- round 5 (audit): links to the independent specification, chains of any length, missing non-vacuity ---- *)
+(* C15_update / C15_update_sequence relate the model to itself (re-instantiation = update); with C15_marked the updated
+   program IS the tree the scope-free specification (Spec.spec_program: no scopes, no builder) describes for the new
+   values - counts, volatile marks and dependency keys *)
+Theorem C15_update_meets_spec : forall ups p vals V t,
+  guard_C15_zero_count_seq p vals V ups = true ->
+  create_program p vals V = Ok (Some t) ->
+  spec_program p (override_all ups vals) V = Some (Some (obs_of (update_all ups t))).
+Proof. exact update_sequence_meets_spec. Qed.
+Print Assumptions C15_update_meets_spec.
+
+(* "... exactly the counts that depend on them are marked ... also after the program has been merged, cleaned up":
+   for every played waveform, some enclosing count of the cleaned-up program is marked volatile iff the specification
+   marks one on its path (oleafmarks; cleanup merges counts, so marks are compared per waveform, not per loop) *)
+Theorem C15_cleanup_marks : forall p vals V t st,
+  create_program p vals V = Ok (Some t) -> spec_program p vals V = Some (Some st) ->
+  oleafmarks false (obs_of (cleanup t)) = oleafmarks false st.
+Proof. exact cleanup_marks_meet_spec. Qed.
+Print Assumptions C15_cleanup_marks.
+
+Theorem C15_cleanup_update_marks : forall ups p vals V t st,
+  guard_C15_zero_count_seq p vals V ups = true ->
+  create_program p vals V = Ok (Some t) -> spec_program p (override_all ups vals) V = Some (Some st) ->
+  oleafmarks false (obs_of (update_all ups (cleanup t))) = oleafmarks false st.
+Proof. exact cleanup_update_marks_meet_spec. Qed.
+Print Assumptions C15_cleanup_update_marks.
+
+Theorem C15_cleanup_marks_nonvacuous : exists t,
+  create_program ex_marks_pt [(1%N, 3)] [1%N] = Ok (Some t) /\ cleanup t <> t /\
+  oleafmarks false (obs_of (cleanup t)) = [true; false] /\
+  oleafmarks false (obs_of (update_all [[(1%N, 2)]] (cleanup t))) = [true; false] /\
+  guard_C15_zero_count_seq ex_marks_pt [(1%N, 3)] [1%N] [[(1%N, 2)]] = true.
+Proof. exact cleanup_marks_example. Qed.
+Print Assumptions C15_cleanup_marks_nonvacuous.
+
+(* the class of seed C15-8 on the model: a single-child chain of ANY length with at least one volatile count, merged
+   (merge_rep nests JointScopes) and then updated, has the clamped product of the raw values the counts have in their
+   UPDATED scopes (C15_merge_count / C15_merge_joint_count are the two-level cases) *)
+Theorem C15_merge_chain_count : forall us rs last vs b,
+  existsb is_vol rs || is_vol last = true ->
+  Forall2 (fun r v => raw_of_rep (upd_rep us r) = Some v) rs vs -> raw_of_rep (upd_rep us last) = Some b ->
+  int_of_rep (upd_rep us (merge_chain rs last)) = Some (Z.max 0 (fold_right Z.mul b vs)).
+Proof. exact merge_chain_update_count. Qed.
+Print Assumptions C15_merge_chain_count.
+
+(* three nested volatile repetitions, cleaned up into one loop; the innermost, then the middle parameter is updated *)
+Theorem C15_merge_chain_example : exists t,
+  create_program ex_chain3 [(1%N, 2); (2%N, 1); (3%N, 2)] [1%N; 2%N; 3%N] = Ok (Some t) /\
+  kids (cleanup t) = [] /\ cnt (cleanup t) = 4 /\ cnt (update [(3%N, 3)] (cleanup t)) = 6 /\
+  cnt (update [(2%N, 5)] (update [(3%N, 3)] (cleanup t))) = 30.
+Proof. exact chain3_example. Qed.
+Print Assumptions C15_merge_chain_example.
+
+(* C15_flatten_commutes had no non-vacuity statement: a run of flatten_and_balance(2) that restructures the program
+   (unrolls a fixed inner loop, encapsulates a leaf) without warning, and whose update changes counts; and the
+   no-warning hypothesis cannot be dropped (depth 1 unrolls the volatile loop itself) *)
+Theorem C15_flatten_nonvacuous : exists us l,
+  fab 100 2 (kids ex_fab_tree) false = Ok (l, false) /\ l <> kids ex_fab_tree /\
+  fab 100 2 (map (update us) (kids ex_fab_tree)) false = Ok (map (update us) l, false) /\
+  map cnt (map (update us) l) <> map cnt l.
+Proof. exact fab_update_nonvacuous. Qed.
+Print Assumptions C15_flatten_nonvacuous.
+
+Theorem C15_flatten_refuted : exists us l l2 w2,
+  fab 100 1 (kids ex_fab_tree) false = Ok (l, true) /\
+  fab 100 1 (map (update us) (kids ex_fab_tree)) false = Ok (l2, w2) /\ l2 <> map (update us) l.
+Proof. exact fab_update_needs_no_warning. Qed.
+Print Assumptions C15_flatten_refuted.
+
+(* C15_make_compatible_repaired_commutes (the code as it is now, rp = true) had its non-vacuity example only for the
+   historical rp = false variant *)
+Theorem C15_make_compatible_repaired_nonvacuous : exists us t' tr,
+  make_compatible true ex_al 384 16 ex_mc_ok = Ok (t', false, tr) /\
+  make_compatible true ex_al 384 16 (cupdate us ex_mc_ok) = Ok (cupdate us t', false, tr) /\
+  t' <> ex_mc_ok /\ cplay (cupdate us t') <> cplay t'.
+Proof. exact make_compatible_update_nonvacuous. Qed.
+Print Assumptions C15_make_compatible_repaired_nonvacuous.
